@@ -1,6 +1,5 @@
 #!/bin/sh
 # Runs every stored behaviour-preserving refactoring (benign/) and every stored property-breaking change (seeded/) through
-# the quick check of its property, each on a scratch copy of /repo (tools/try_seed.sh).  One line per change.
+# the quick check of its property, each on a scratch copy of /repo (tools/try_seed.sh), three at a time.  One line per change.
 # usage: tools/run_all_seeds.sh > out.txt ; python3 tools/seed_table.py out.txt
-for d in /verif/benign/*; do n=$(basename $d); p=${n%-*}; r=$(/verif/tools/try_seed.sh $d $p 2>&1 | grep -E "^VIOLATION|^UNDEC|^OK|^exit|rror" | tr '\n' ' ' | cut -c1-260); echo "BENIGN $n :: $r"; done
-for d in /verif/seeded/*; do n=$(basename $d); p=${n%-*}; r=$(/verif/tools/try_seed.sh $d $p 2>&1 | grep -E "^VIOLATION|^UNDEC|^OK|^exit" | tr '\n' ' ' | cut -c1-260); echo "SEED $n :: $r"; done
+( for d in /verif/benign/*; do echo "$d BENIGN"; done; for d in /verif/seeded/*; do echo "$d SEED"; done ) | xargs -P 3 -L 1 /verif/tools/run_one_change.sh
